@@ -17,6 +17,10 @@ Static clauses decided (necessary conditions of C06):
           escape character everywhere; the builders emit ESCAPE when given.
  LITERAL  inline string literals: every Value class escapes the characters that terminate or escape a string in its dialect
           (table: all dialects `'`; MySQL additionally `\\`).
+ LITTWIN  SQLite compares dates and datetimes as TEXT, so a value written inline must be spelt exactly as the same value bound as a
+          parameter (and as it is stored): for datetime and date the rendering in SQLiteValue.__str__ is the same function of the
+          value as py2sql of the SQLite converter of that type (datetime2timestamp on both sides -- it always writes the
+          microseconds; str(date) == date.isoformat()).
  IDENT    identifiers reach the statement only through quote_name/compound_name: in every method of the SQLBuilder
           hierarchy a table/alias/column name (tracked by forward dataflow from the identifier parameters) is never used as
           output text unquoted; DBAPIProvider.quote_name doubles the quote character; the DDL text functions of dbschema.py
@@ -55,7 +59,7 @@ def raises(body):
 
 def run(ctx):
     repo, cg = ctx.repo, ctx.cg
-    styles_rule(ctx); percent_rule(ctx); like_rule(ctx); literal_rule(ctx); ident_rule(ctx)
+    styles_rule(ctx); percent_rule(ctx); like_rule(ctx); literal_rule(ctx); littwin_rule(ctx); ident_rule(ctx)
 
 
 def styles_rule(ctx):
@@ -177,6 +181,44 @@ def literal_rule(ctx):
         ctx.ob('C06-LITERAL.value-class-escapes-dialect-metacharacters', '%s::%s' % (cls.mod.rel, cls.qual), '%s literals via %s.quote_str' % (d or 'generic', q.cls.name), not missing,
                '' if not missing else 'inline string literals of the %s builder are produced by %s.quote_str, which escapes %s but not %s: a value containing it '
                'changes where the literal ends' % (d, q.cls.name, sorted(escaped), missing), node=q.node)
+
+
+def _canon(e, var, typ):
+    """canonical spelling of a text rendering of `var` (None = not in the recognised vocabulary)"""
+    t = norm(e).replace(var, 'v')
+    if typ == 'date' and t == 'str(v)': t = 'v.isoformat()'
+    if typ == 'datetime' and t == 'str(v)': t = "v.isoformat(' ')"
+    known = ('datetime2timestamp(v)', 'v.isoformat()', "v.isoformat(' ')", 'str(v)')
+    if t in known or t.startswith('v.strftime('): return t
+    return None
+
+
+def littwin_rule(ctx):
+    repo = ctx.repo
+    SQ = 'pony.orm.dbproviders.sqlite'
+    f = repo.fn(SQ, 'SQLiteValue.__str__')
+    n = 0
+    for typ, convname in (('datetime', 'SQLiteDatetimeConverter'), ('date', 'SQLiteDateConverter')):
+        branch = [st for st in walk_no_nested(f.node) if isinstance(st, ast.If) and isinstance(st.test, ast.Call) and dotted(st.test.func) == 'isinstance'
+                  and len(st.test.args) == 2 and dotted(st.test.args[1]) == 'datetime.' + typ]
+        ctx.need(len(branch) == 1, 'C06-LITTWIN: branch for datetime.%s not found in SQLiteValue.__str__' % typ)
+        var = norm(branch[0].test.args[0])
+        rets = [r for r in ast.walk(branch[0]) if isinstance(r, ast.Return)]
+        ctx.need(len(rets) == 1 and isinstance(rets[0].value, ast.Call) and isinstance(rets[0].value.func, ast.Attribute) and rets[0].value.func.attr == 'quote_str'
+                 and len(rets[0].value.args) == 1, 'C06-LITTWIN: unexpected shape of the %s branch of SQLiteValue.__str__' % typ)
+        lit = _canon(rets[0].value.args[0], var, typ)
+        p2 = repo.fn(SQ, convname + '.py2sql')
+        prets = [r for r in walk_no_nested(p2.node) if isinstance(r, ast.Return)]
+        ctx.need(len(prets) == 1, 'C06-LITTWIN: %s.py2sql has %d returns' % (convname, len(prets)))
+        par = _canon(prets[0].value, p2.params[1], typ)
+        ctx.need(lit is not None and par is not None, 'C06-LITTWIN: rendering of %s not in the recognised vocabulary: literal `%s`, parameter `%s`'
+                 % (typ, norm(rets[0].value.args[0]), norm(prets[0].value)))
+        n += 1
+        ok = lit == par
+        ctx.ob('C06-LITTWIN.inline-literal-spelt-like-the-bound-parameter', f, rets[0].value, ok,
+               '' if ok else 'a %s written inline is rendered as %s, the same value bound as a parameter (and stored) as %s: SQLite compares them as text, so '
+               '`attr == <literal>` misses the row that `attr == <parameter>` finds' % (typ, lit, par), node=rets[0], expected=par)
+    ctx.floor('C06-LITTWIN', n, 2, 'text-compared types')
 
 
 def bodies(node):
@@ -320,6 +362,8 @@ def delegated(x, pm, f):
 
 
 MUTANTS = [
+    dict(id='C06-lt1', file='pony/orm/dbproviders/sqlite.py', fn='SQLiteValue.__str__', old="return self.quote_str(datetime2timestamp(value))", new="return self.quote_str(value.isoformat(' '))", expect='C06-LITTWIN'),
+    dict(id='C06-lt2', file='pony/orm/dbproviders/sqlite.py', fn='SQLiteValue.__str__', old="return self.quote_str(str(value))", new="return self.quote_str(value.isoformat())", benign=True),
     dict(id='C06-m1', file='pony/orm/sqltranslation.py', fn='StringMixin._like',
          old="            if '%' in value or '_' in value:\n                escape = True\n                value = value.replace('!', '!!').replace('%', '!%').replace('_', '!_')",
          new="            escape = '%' in value or '_' in value\n            value = value.replace('!', '!!').replace('%', '!%').replace('_', '!_')", expect='C06-LIKE.escaping-applied'),
